@@ -136,6 +136,9 @@ type mutexState struct {
 type wgState struct{ n int64 }
 type onceState struct{ done, running bool }
 
+// rwReaders keys the clock into which the readers of an RWMutex release.
+type rwReaders struct{ mu *Value }
+
 func buildIntrinsics() map[string]Intrinsic {
 	m := map[string]Intrinsic{}
 
@@ -289,6 +292,7 @@ func buildIntrinsics() map[string]Intrinsic {
 		g.p.lockEvent(g, key, 'L')
 		if r := g.p.race; r != nil {
 			r.acquire(g, key)
+			r.acquire(g, rwReaders{key}) // (RWMutex) every earlier reader's RUnlock happens before this Lock
 		}
 		return Value{}, true
 	}
@@ -330,7 +334,7 @@ func buildIntrinsics() map[string]Intrinsic {
 		st.readers++
 		g.p.lockEvent(g, key, 'R')
 		if r := g.p.race; r != nil {
-			r.acquire(g, key)
+			r.acquire(g, key) // after the last writer's Unlock; readers are not ordered among themselves
 		}
 		return Value{}, true
 	}
@@ -343,7 +347,7 @@ func buildIntrinsics() map[string]Intrinsic {
 		st.readers--
 		g.p.lockEvent(g, key, 'r')
 		if r := g.p.race; r != nil {
-			r.release(g, key)
+			r.release(g, rwReaders{key}) // seen by the next writer's Lock only
 		}
 		return Value{}, true
 	}
